@@ -22,6 +22,7 @@ def seeded_block():
         fired=m.get('fired_properties',[]); viol=m.get('violated_obligations',[])
         rules=sorted(set(v.split()[0] for v in viol))
         caught=("**caught**: "+", ".join(rules)) if m.get('caught') else ("missed" if 'caught' in m else "not run")
+        if m.get('skip_in_matrix'): caught+=" — on the base it was written for; obsolete on the current tree (the later fix made the mutation behaviour-preserving, see meta.json)"
         if fired and set(fired)-{m.get('property_id')}: caught+=f" (also fires {', '.join(sorted(set(fired)-{m.get('property_id')}))})"
         out.append(f"| seeded/{d} | {m.get('property_id')} | {needs.replace('|','/')} | {caught} |")
     return "\n".join(out)
